@@ -319,13 +319,19 @@ impl Session {
     pub fn to_connected(&mut self, since: LocalTime) {
         self.last_active = since;
 
-        if let State::Connected { .. } = &self.state {
+        // Nb. If the session is already connected, the fetches that are ongoing with this
+        // peer are kept: the service still tracks them, and forgetting them here would let
+        // the session exceed its fetch capacity.
+        let fetching = if let State::Connected { fetching, .. } = &mut self.state {
             log::error!(target: "service", "Session {} is already in 'connected' state, resetting..", self.id);
+            std::mem::take(fetching)
+        } else {
+            HashSet::default()
         };
         self.state = State::Connected {
             since,
             ping: PingState::default(),
-            fetching: HashSet::default(),
+            fetching,
             latencies: VecDeque::default(),
             stable: false,
         };
